@@ -25,6 +25,17 @@ func runOne(sc scenario, seg int, hangWait time.Duration) (*runner, []string, er
 	return r, lines, err
 }
 
+// the class of hang a scenario can end in (see runner.run)
+func classOf(sc scenario) string {
+	if sc.PauseAt < 0 {
+		return "finish"
+	}
+	if sc.StopKind == 1 || sc.StopKind == 3 {
+		return "Announce.Close:consumer-not-reading"
+	}
+	return "stoptraversing-consumer-not-reading"
+}
+
 // next choice vector in depth-first order, or nil
 func nextChoices(taken, arities []int) []int {
 	for i := len(taken) - 1; i >= 0; i-- {
@@ -42,8 +53,9 @@ func main() {
 	exh := flag.Int("exh", 2, "number of small networks whose reply orders are enumerated exhaustively")
 	out := flag.String("out", "trace.ndjson", "")
 	scn := flag.String("scn", "", "run exactly this scenario (JSON)")
-	hw := flag.Duration("hangwait", 400*time.Millisecond, "how long Finished() may take when nothing is left to wait for")
+	hw := flag.Duration("hangwait", time.Second, "how long Finished() may take when nothing is left to wait for")
 	maxRuns := flag.Int("maxruns", 100000, "")
+	maxExh := flag.Int("maxexh", 150, "cap on the runs spent on one exhaustively enumerated network")
 	flag.Parse()
 	log.Default.Handlers = []log.Handler{log.DiscardHandler}
 	hangPath := *out + ".hang"
@@ -62,7 +74,11 @@ func main() {
 		hf.Close()
 	}
 	play := func(sc scenario) *runner {
-		r, lines, err := runOne(sc, seg, *hw)
+		w := *hw
+		if cl := classOf(sc); hangSeen[cl] && w > 150*time.Millisecond {
+			w = 150 * time.Millisecond // the first occurrence of this class was given the full wait
+		}
+		r, lines, err := runOne(sc, seg, w)
 		seg++
 		if err != nil {
 			if he, ok := err.(*hangErr); ok {
@@ -91,10 +107,14 @@ func main() {
 		// (A) small networks: every order of releasing the parked replies, for a rotating choice of
 		// options and for Close / StopTraversing / pause at every quiescent point
 		for g := 0; g < *exh && seg < *maxRuns; g++ {
+			lim := seg + *maxExh
+			if lim > *maxRuns {
+				lim = *maxRuns
+			}
 			base := scenario{NetSeed: rng.Int63(), Shape: "small", Opt: rng.Intn(nOpts), StopAt: -1, PauseAt: -1, ResumeAt: -1, Gate: -1}
 			// all orders, nothing else
 			steps := 0
-			for ch := []int{}; ch != nil && seg < *maxRuns; {
+			for ch := []int{}; ch != nil && seg < lim-(*maxExh)/2; {
 				sc := base
 				sc.Choices = ch
 				r := play(sc)
@@ -106,15 +126,12 @@ func main() {
 			// every stop kind at every point, every order
 			for kind := 1; kind <= 3; kind++ {
 				for at := 0; at <= steps+3; at++ {
-					for ch := []int{}; ch != nil && seg < *maxRuns; {
+					for ch := []int{}; ch != nil && seg < lim-(*maxExh)/6; {
 						sc := base
 						sc.Opt = (base.Opt + kind + at) % nOpts
 						sc.StopKind, sc.StopAt, sc.Choices = kind, at, ch
 						r := play(sc)
 						ch = nextChoices(r.taken, r.arities)
-						if hangSeen["Announce.Close:consumer-not-reading"] && false {
-							ch = nil
-						}
 					}
 				}
 			}
@@ -122,6 +139,9 @@ func main() {
 			for pa := 0; pa <= steps; pa++ {
 				for kind := 0; kind <= 2; kind++ {
 					for _, gate := range []int{-1, rng.Intn(3)} {
+						if seg >= lim {
+							break
+						}
 						sc := base
 						sc.Opt = (base.Opt + pa + kind) % nOpts
 						sc.PauseAt, sc.StopKind, sc.Gate = pa, kind, gate
